@@ -252,7 +252,10 @@ def _task_order(args):
                     dec = NMEA2000Decoder(preferred_units=m)
                     dec_line(dec, pgn, *pays[d1.id])
                     got = dec_line(dec, pgn, *pays[d2.id])
-                    ref = dec_line(NMEA2000Decoder(), pgn, *pays[d2.id])
+                    # reference: a decoder without preferences that saw the same two messages
+                    plain = NMEA2000Decoder()
+                    dec_line(plain, pgn, *pays[d1.id])
+                    ref = dec_line(plain, pgn, *pays[d2.id])
                     st["cases"] += 1
                     st["nontrivial"] += 1
                     ddef = d2
@@ -285,12 +288,17 @@ def _task_entry(args):
             if n > 223 or (not defn.fast and n > 8) or n == 0:
                 continue
             payload = p.to_bytes(n, "little")
-            ref = dec_line(NMEA2000Decoder(), defn.pgn, p, n)
-            ddef = defn
-            if not isinstance(ref, tuple) and ref is not None and ref.id != defn.id:
-                ddef = db.by_id.get((ref.PGN, ref.id), defn)
             for m in maps:
                 for name, fn in wire.entry_points(defn.pgn, payload, defn.fast).items():
+                    # the reference is the same delivery to a decoder without preferences (what an entry point makes of the
+                    # frames is C07's subject; here only the effect of the preferences is judged)
+                    try:
+                        ref = fn(NMEA2000Decoder())
+                    except Exception as ex:  # noqa: BLE001
+                        ref = ("error", type(ex).__name__)
+                    ddef = defn
+                    if not isinstance(ref, tuple) and ref is not None and ref.id != defn.id:
+                        ddef = db.by_id.get((ref.PGN, ref.id), defn)
                     try:
                         got = fn(NMEA2000Decoder(preferred_units=m))
                     except Exception as ex:  # noqa: BLE001
